@@ -255,6 +255,15 @@ def intrinsics(reg: Registry):
         ax = k.get("axis", a[1] if len(a) > 1 else None)
         return FLIP(as_sym(a[0]))
 
+    def sort_(ev, a, k):
+        # a vector sorted by ITS OWN values: a data-dependent reordering that another vector does not share
+        k.all() if hasattr(k, "all") else None
+        return sp.Function("SORT")(as_sym(a[0]))
+
+    def argsort_(ev, a, k):
+        k.all() if hasattr(k, "all") else None
+        return sp.Function("ARGSORT")(as_sym(a[0]))
+
     def ceil(ev, a, k):
         return sp.ceiling(as_sym(a[0]))
 
@@ -302,5 +311,5 @@ def intrinsics(reg: Registry):
         "scipy.interpolate.lagrange": lagrange, "scipy.interpolate.KroghInterpolator": krogh,
         "interp.derivative_at": krogh_derivative, "numpy.polyder": polyder, "numpy.polyval": polyval,
         "numpy.poly1d": poly1d, "numpy.vander": vander, "numpy.linalg.lstsq": lstsq, "numpy.polyfit": polyfit,
-        "numpy.flip": flip, "numpy.ceil": ceil, "builtins.int": int_,
+        "numpy.flip": flip, "numpy.sort": sort_, "numpy.argsort": argsort_, "numpy.ceil": ceil, "builtins.int": int_,
     }
